@@ -1,6 +1,7 @@
 import FH.Driver.Parse
 import FH.RuleX64
 import FH.RuleA64
+import FH.Pe
 namespace FH.Driver
 open FH
 
@@ -91,5 +92,20 @@ def handleRule (fs : List (String × String)) : Option String := do
     let regs ← parseRegsA64 fs
     pure (showOutA64 (execA64 rule first regs mem))
   else none
+
+/-- `regorder <id> regs=<hex list>`: the model's `register_ordering::encode` and the decode of
+its result. -/
+def handleRegOrder (fs : List (String × String)) : Option String := do
+  let regs ← hexList (← lookup fs "regs")
+  match encodeRegs regs with
+  | none => pure "none"
+  | some (c, e) =>
+    pure ("enc=" ++ toHex c ++ ":" ++ toHex e ++ " dec=" ++ ",".intercalate ((decodeRegs c e).map toHex))
+
+/-- `regdecode <id> c=<count> e=<encoded>` -/
+def handleRegDecode (fs : List (String × String)) : Option String := do
+  let c ← parseHex (← lookup fs "c")
+  let e ← parseHex (← lookup fs "e")
+  pure ("dec=" ++ ",".intercalate ((decodeRegs c e).map toHex))
 
 end FH.Driver
